@@ -38,11 +38,16 @@ func (t taintSet) add(o taintSet) taintSet {
 func (t taintSet) String() string {
 	var s []string
 	for k := range t {
+		if k == sanMarker {
+			continue
+		}
 		s = append(s, k)
 	}
 	sort.Strings(s)
 	return strings.Join(s, ", ")
 }
+
+const sanMarker = "#sanitised"
 
 type taintCtx struct {
 	key    string
@@ -139,7 +144,12 @@ func (e *taintEngine) eval(v ssa.Value, fn *ssa.Function, ctx *taintCtx, seen ma
 		if al, ok := x.X.(*ssa.Alloc); ok {
 			return e.arrayElems(al, fn, ctx, seen)
 		}
-		return e.eval(x.X, fn, ctx, seen)
+		t := e.eval(x.X, fn, ctx, seen)
+		if bt, ok := x.X.Type().Underlying().(*types.Basic); ok && bt.Info()&types.IsString != 0 && t[sanMarker] {
+			// cutting escaped text can split an escape sequence (\" → ")
+			t = t.add(e.src("escaped text cut after escaping in " + fnName(fn)))
+		}
+		return t
 	case *ssa.Extract:
 		return e.eval(x.Tuple, fn, ctx, seen)
 	case *ssa.Lookup:
@@ -358,13 +368,16 @@ func (e *taintEngine) evalCall(call *ssa.Call, fn *ssa.Function, ctx *taintCtx, 
 	name := sc.String()
 	short := fnName(sc)
 	if e.sanitizers[short] {
-		return nil
+		return taintSet{sanMarker: true}
 	}
 	if !fnInModule(sc) {
 		if stringPassThrough[name] {
 			var t taintSet
 			for _, a := range cc.Args {
 				t = t.add(e.eval(a, fn, ctx, seen))
+			}
+			if t[sanMarker] && (strings.HasPrefix(name, "strings.Trim") || name == "strings.Split" || name == "strings.SplitN") {
+				t = t.add(e.src("escaped text cut by " + name + " after escaping in " + fnName(fn)))
 			}
 			return t
 		}
